@@ -124,3 +124,11 @@ package configure
 //@ assigns nothing
 //@ ensures [args-loader-first] result != nil && fresh(result) && result.NLoaders == 1 && result.LoaderAt[0] == loader.ArgsLoader(os.Args)
 //@ ensures [binder-installed] result.TheBinder != nil
+
+// Reading the effective configuration has no effect on container state (A-CALLBACK for user binders).
+// CfgGet is the effective configuration as a function of the path: it is assumed not to change while components are
+// being populated (A-STABLE-CONFIG; loading happened-before, see C15).
+//@ spec func CfgGet(path string) any
+//@ method (Binder).Get
+//@ assigns nothing
+//@ ensures [reads-effective-config] result == CfgGet(path)
